@@ -986,8 +986,13 @@ def run_flow(ctx: Ctx) -> None:
     long_ports = 'port [ %s ];' % ' '.join('=%d' % (1000 + i) for i in range(90))  # 90 * 3 bytes > 255: extended length form
     mid_ports = 'port [ %s ];' % ' '.join('=%d' % (1000 + i) for i in range(79))  # 239..240 bytes: the length form boundary
     mid2_ports = 'port [ %s ];' % ' '.join('=%d' % (1000 + i) for i in range(80))
+    # every NLRI length from 232 to 244 octets (the one / two octet length form switches at 240): 3n+1 octets of ports plus a prefix
+    around = []
+    for n in (77, 78, 79):
+        for dst in ('', 'destination 10.0.0.0/8; ', 'destination 10.1.0.0/16; ', 'destination 10.1.2.0/24; ', 'destination 10.1.2.3/32; '):
+            around.append(dst + 'port [ %s ];' % ' '.join('=%d' % (1000 + i) for i in range(n)))
     sets = [
-        (FLOW_MATCH + [long_ports, mid_ports, mid2_ports], None, [(1, 133)]),
+        (FLOW_MATCH + [long_ports, mid_ports, mid2_ports] + around, None, [(1, 133)]),
         (FLOW_MATCH[:12] + [long_ports], '65000:1', [(1, 134)]),
         (FLOW6_MATCH, None, [(2, 133)]),
         (FLOW6_MATCH[:5], '1.2.3.4:5', [(2, 134)]),
@@ -995,6 +1000,7 @@ def run_flow(ctx: Ctx) -> None:
     for matches, rd, fams in sets:
         for m, r in load(matches, rd, fams):
             exercise_nlri(ctx, r.nlri, 'text', 'flow route { %smatch { %s } }' % (f'rd {rd}; ' if rd else '', m))
+            ctx.res.count('flow-nlri-length-%d' % len(bytes(r.nlri.pack_nlri(ctx.sessions['plain']))) if 235 <= len(bytes(r.nlri.pack_nlri(ctx.sessions['plain']))) <= 250 else 'flow-nlri-length-other')
             ctx.res.count('flow-nlri-bytes-%s' % ('>=256' if len(bytes(r.nlri.pack_nlri(ctx.sessions['plain']))) > 257 else ('>=240' if len(bytes(r.nlri.pack_nlri(ctx.sessions['plain']))) > 240 else '<240')))
     # L4: RD (flow-vpn) and destination prefix
     for fams, m in (([(1, 134)], 'destination 10.0.0.0/24;'), ([(2, 134)], 'destination 2001:db8::/32;')):
@@ -1896,6 +1902,17 @@ def exercise_update(ctx: Ctx, route, src: str, withdraw: bool = False) -> None:
         ctx.bad(f'C15/roundtrip-attr:{label.split(":")[1]}' if label.startswith('attr') else f'C15/roundtrip-nlri:{afi}/{safi}', f'decoding the UPDATE ExaBGP encoded does not give the route back: {[laws.safe_repr(g) for g in got][:2]}', wit, label, 'L1')
         return
     ctx.ok(label, 'L1', (label, 'L1', hx(body)))
+    # the same bytes decoded a second time, back to back (the decoder keeps the last attribute set it saw): same routes
+    try:
+        u2 = UpdateCollection.unpack_message(body, neg)
+        got2 = list(u2.withdraws) if withdraw else [rn.nlri for rn in u2.announces]
+    except Exception as e:  # noqa
+        ctx.bad(f'C15/decode-twice-raises:{label}:{type(e).__name__}', f'the second decode of the same UPDATE raises {type(e).__name__}: {str(e)[:140]}', wit, label, 'L5')
+        return
+    if len(got2) != len(got) or not all(check_eq_pair(ctx, a, b, laws.nlri_label(nlri), dict(wit, pair='first decode vs second decode')) for a, b in zip(got, got2)):
+        ctx.bad(f'C15/decode-twice-differs:{label}', f'decoding the same UPDATE twice gives {len(got)} then {len(got2)} routes: {[laws.safe_repr(g) for g in got2][:2]}', wit, label, 'L5')
+        return
+    ctx.ok(label, 'L5', (label, 'L5-twice', hx(body)))
     # L2 at the UPDATE level: re-encode what was decoded
     try:
         if withdraw:
